@@ -101,7 +101,7 @@ pub fn judge(root: &Path, c: &Case) -> Result<(bool, bool), (String, String)> {
     });
     let before = snapshot(root);
     let world = World::new(WorldCfg { roots: vec![root.to_string_lossy().into_owned()], trace: true, capture_listings: true, vclock: t0, ..Default::default() });
-    let op = Op { kind: if c.put { OpKind::Put } else { OpKind::Set }, key: key.clone(), val: Val::new("zz", 7, 7, 17), pop: Pop::Value, nosy: false };
+    let op = Op { kind: if c.put { OpKind::Put } else { OpKind::Set }, key: key.clone(), val: Val::new("zz", 7, 7, 17), pop: Pop::Value, nosy: false, link_from: None };
     let (res, ev) = traced(&world, || {
         script_rng(true, 1);
         let h = open_dir(root, &spec);
